@@ -792,8 +792,8 @@ def refute_tower(binp):
 # They are tests, not proofs: reported separately in the evidence (coverage.stand_ins), never counted as obligations.
 STANDINS = {
     'batch_normalization': (refute_batch, "CurveProjective::batch_normalization (iterator adaptor chains: outside the Verus subset): every mix and order of identity / normalized / general representatives, up to 5 points"),
-    'wnaf_contexts_precomp_3': (refute_scalar_paths, "Wnaf context methods with reuse histories (type-state wrappers over AsRef/AsMut) and precomp_3 / mul_precomp_3: structured scalars (0, 1, word and chunk boundaries, r-1, r, 2^255-1), both staging orders, table sizes for 1 / 5 / 100000 scalars"),
-    'expand_message_hash_to_field': (refute_expand, "ExpandMsgXmd / ExpandMsgXof / hash_to_field (generic Digest chains and closures: outside the Verus subset) against hashlib: tag lengths 0, 1, 27, 254, 255; output lengths around every block boundary and the 255-block limit (abort expected beyond it); element counts 0..5"),
+    'wnaf_contexts_precomp_3': (refute_scalar_paths, "(cross-check: under contract in units wnaf / precomp) Wnaf context methods with reuse histories and precomp_3 / mul_precomp_3: structured scalars (0, 1, word and chunk boundaries, r-1, r, 2^255-1), both staging orders, table sizes for 1 / 5 / 100000 scalars"),
+    'expand_message_hash_to_field': (refute_expand, "(cross-check: under contract in units expand / okm; the abort beyond 255 blocks is only observable here) ExpandMsgXmd / ExpandMsgXof / hash_to_field through the real sha2 / sha3 crates against hashlib: tag lengths 0, 1, 27, 254, 255; output lengths around every block boundary and the 255-block limit (abort expected beyond it); element counts 0..5"),
     'sum_of_products': (refute_msm, "(also under contract in unit msm; kept as an end-to-end cross-check through the compiled point formulas) sum_of_products / sum_of_products_pippinger (windows 1..20) / sum_of_products_precomp_256: empty input, duplicates, inverse pairs, identity points, zero scalars, mismatched lengths, scalars with bits at word boundaries and 2^255-1"),
     'serdes_streams': (refute_serdes, "(cross-check: the SerDes functions are under contract in units serdes / serout) serialize / deserialize for Fr, Fq12, G1, G2 and the affine types end to end: bytes written after existing sink content, bytes consumed with 0 / 50 / 9000 trailing bytes, truncation at several lengths, non-reduced blocks"),
     'tower_ops': (refute_tower, "(cross-check: the tower is under contract in unit tower) Fq2 / Fq6 / Fq12 inverse, square, mul_assign and frobenius_map on zero, one, every single-coefficient element, single-block elements and random elements; "
